@@ -41,14 +41,14 @@ def run(R: vlib.Run):
     try:
         Nmax = 7 if R.tier == "quick" else 11
         for nbits in (1, 2, 4, 8, 32):
-            for nf in (1, 2):
+            for nf in (1, 2, 3) if nbits in (8, 32) else (1, 2):      # three files: the skip-back of dedisperse crosses two boundaries
                 nch = NCH[nbits]
                 N = Nmax if nbits in (8, 32) else Nmax - 1
                 hi = 1 << min(nbits, 8)
                 x = nprng.integers(0, hi, (N, nch))
-                splits = [int(nprng.integers(1, N))] if nf == 2 else []
+                splits = [int(nprng.integers(1, N))] if nf == 2 else sorted(set(int(v) for v in nprng.choice(np.arange(1, N), 2, replace=False))) if nf == 3 else []
                 # band chosen so that small DMs give delays of a few samples
-                paths = filutil.write_fil_set(os.path.join(d, f"f{nbits}_{nf}"), x, nbits, splits, fch1=400.0, foff=-20.0, tsamp=0.001)
+                paths = filutil.write_fil_set(os.path.join(d, f"f{nbits}_{nf}"), x, nbits, splits, fch1=400.0, foff=-20.0, tsamp=0.001, vary_header=(nf == 3))
                 fil = FilReader(paths)
                 dms = [0.0]
                 seen = {0}
